@@ -4,7 +4,7 @@ import glob, json, os
 ROOT = "/verif/seeded"
 notes = json.load(open(os.path.join(ROOT, "NOTES.json")))
 rows = ["| id | property | what the change does | needs to manifest | confirmed (demo +/-, suite green) | caught by (quick tier) | missed by | when it arrived |", "|---|---|---|---|---|---|---|---|"]
-for d in sorted(glob.glob(os.path.join(ROOT, "c*"))):
+for d in sorted(glob.glob(os.path.join(ROOT, "*c[0-9][0-9]")), key=lambda p: (os.path.basename(p)[:-3] or " ", os.path.basename(p))):
     mid = os.path.basename(d)
     meta = json.load(open(os.path.join(d, "meta.json"))) if os.path.exists(os.path.join(d, "meta.json")) else {}
     conf = json.load(open(os.path.join(d, "confirm.json"))) if os.path.exists(os.path.join(d, "confirm.json")) else {}
@@ -23,7 +23,7 @@ for d in sorted(glob.glob(os.path.join(ROOT, "c*"))):
         s = " ".join(str(s).split())
         return s if len(s) <= k else s[: k - 3] + "..."
     rows.append("| {} | {} | {} | {} | {} | {} | {} | {} |".format(
-        mid, mid.upper(), cut(meta.get("summary", "")), cut(meta.get("needs_to_manifest", "")),
+        mid, "C" + mid[-2:], cut(meta.get("summary", "")), cut(meta.get("needs_to_manifest", "")),
         "yes" if conf.get("confirmed") else ("pending" if not conf else "NO"),
         "; ".join(f"{c} ({', '.join(o)})" for c, o in sorted(caught.items())) or "-", ", ".join(sorted(missed)) or "-",
         ("caught as the checks stood" if n.get("caught_when_it_arrived") else "MISSED, then caught after: " + cut(n.get("note", ""), 260)) if n else ""))
